@@ -1152,6 +1152,21 @@ func (a *adversary) onTimeout(nd *Node, m *hotstuff.TimeoutMsg) bool {
 	if acts == nil || !a.chance(nd.byz.Rate) {
 		return false
 	}
+	if has(acts, "noqctimeout") && m.MsgSignature != nil && a.chance(0.7) {
+		// aggregate mode: a correctly signed timeout whose sync info carries no QC at all (only the TC, or nothing)
+		fm := *m
+		var si hotstuff.SyncInfo
+		if tc, ok := m.SyncInfo.TC(); ok && a.chance(0.5) {
+			si = hotstuff.NewSyncInfoWith(tc)
+		}
+		fm.SyncInfo = si
+		fm.MsgSignature = a.ownSig(nd, fm.ToBytes())
+		for _, id := range a.others(nd) {
+			a.sendTo(nd, id, "timeout", fm)
+		}
+		a.fired("noqctimeout")
+		return true
+	}
 	if has(acts, "aggattest") && m.MsgSignature != nil && len(a.qcs) > 0 && a.chance(0.5) {
 		// every second timeout of the Byzantine replica attests the newest genuine QC it has seen (the others attest
 		// whatever its stack holds): aggregates with and without that QC alternate at the honest replicas
